@@ -358,6 +358,132 @@ theorem multitaper_scale_sq (tw : ℕ → ℂ) (Fs : ℝ) (n : ℕ) (os : Bool) 
   refine sum_congr rfl fun t _ => ?_
   split_ifs <;> ring
 
+/-! ### Welch (`welchCsdAt` = mlab.csd as documented) -/
+
+/-- rotating the summation index of a full period does not change the sum (the two-sided mlab
+output is rolled by `freqcenter`) -/
+theorem sum_range_rot (N c : ℕ) (g : ℕ → ℝ) :
+    ∑ m ∈ range N, g ((m + c) % N) = ∑ k ∈ range N, g k := by
+  have rot1 : ∀ f : ℕ → ℝ, ∑ m ∈ range N, f ((m + 1) % N) = ∑ m ∈ range N, f m := by
+    intro f
+    cases N with
+    | zero => simp
+    | succ M =>
+      rw [Finset.sum_range_succ, Finset.sum_range_succ' f M, Nat.mod_self]
+      congr 1
+      refine sum_congr rfl fun m hm => ?_
+      rw [Nat.mod_eq_of_lt (by have := mem_range.1 hm; omega)]
+  induction c generalizing g with
+  | zero => exact sum_congr rfl fun m hm => by rw [Nat.add_zero, Nat.mod_eq_of_lt (mem_range.1 hm)]
+  | succ c ih =>
+    rw [← ih g, ← rot1 (fun k => g ((k + c) % N))]
+    refine sum_congr rfl fun m _ => ?_
+    show g ((m + (c + 1)) % N) = g (((m + 1) % N + c) % N)
+    congr 1
+    rw [Nat.mod_add_mod]; ring_nf
+
+/-- energy of the windowed segment `s` of the (zero-padded) signal -/
+noncomputable def segEnergy (n N nov : ℕ) (win : ℕ → ℝ) (x : ℕ → ℂ) (s : ℕ) : ℝ :=
+  ∑ j ∈ range N, Complex.normSq ((win j : ℂ) * padded n x (s * (N - nov) + j))
+
+theorem segSpec_energy (hN : 0 < N) (hζ : IsPrimitiveRoot ζ N) (hc : (starRingEnd ℂ) ζ = ζ⁻¹)
+    (n nov : ℕ) (win : ℕ → ℝ) (x : ℕ → ℂ) (s : ℕ) :
+    ∑ k ∈ range N, Complex.normSq (segSpec (tw ζ) N n nov win x s k) = N * segEnergy n N nov win x s := by
+  have := dft_parseval hN hζ hc (fun j => kscale (win j) (padded n x (s * (N - nov) + j)))
+  unfold segEnergy segSpec
+  simpa only [sqmag_eq, kscale_eq] using this
+
+/-- the Welch auto-spectrum at DFT bin `k` before the one-sided doubling: mean over the segments
+of `|X_s(k)|²`, over `Fs·Σw²` -/
+noncomputable def welchBinPower (tw : ℕ → ℂ) (Fs : ℝ) (n N nov : ℕ) (win : ℕ → ℝ) (x : ℕ → ℂ) (k : ℕ) : ℝ :=
+  (∑ s ∈ range (welchSegs n N nov), Complex.normSq (segSpec tw N n nov win x s k))
+    / ((welchSegs n N nov : ℝ) * (Fs * ∑ j ∈ range N, win j * win j))
+
+/-- the auto-spectrum `csd(x, x)` is real: it is `welchBinPower` at the reported bin, doubled at
+the duplicated bins of a one-sided spectrum -/
+theorem welchAuto_eq (tw : ℕ → ℂ) (Fs : ℝ) (n nov : ℕ) (os : Bool) (win : ℕ → ℝ) (x : ℕ → ℂ) (m : ℕ) :
+    welchCsdAt tw Fs n N nov os win x x m
+      = ((dblIf (fun v => 2 * v) os N (welchBin N os m)
+          (welchBinPower tw Fs n N nov win x (welchBin N os m)) : ℝ) : ℂ) := by
+  unfold welchCsdAt welchCsdOf welchBinPower dblIf
+  simp only [rsum_eq, ksum_eq, kscale_eq, conj_complex, ofNat_real, Nat.cast_ofNat, Nat.cast_one]
+  have hsum : ∑ s ∈ range (welchSegs n N nov),
+        (starRingEnd ℂ) (segSpec tw N n nov win x s (welchBin N os m))
+          * segSpec tw N n nov win x s (welchBin N os m)
+      = ((∑ s ∈ range (welchSegs n N nov),
+          Complex.normSq (segSpec tw N n nov win x s (welchBin N os m)) : ℝ) : ℂ) := by
+    push_cast
+    refine sum_congr rfl fun s _ => ?_
+    rw [mul_comm, Complex.mul_conj]
+  rw [hsum]
+  split_ifs <;> push_cast <;> ring
+
+theorem welchBinPower_sum (hN : 0 < N) (hζ : IsPrimitiveRoot ζ N)
+    (hc : (starRingEnd ℂ) ζ = ζ⁻¹) {Fs : ℝ} (hFs : Fs ≠ 0) (n nov : ℕ) (win : ℕ → ℝ) (x : ℕ → ℂ) :
+    ∑ k ∈ range N, welchBinPower (tw ζ) Fs n N nov win x k * (Fs / N)
+      = (∑ s ∈ range (welchSegs n N nov), segEnergy n N nov win x s)
+          / ((welchSegs n N nov : ℝ) * ∑ j ∈ range N, win j * win j) := by
+  have hN' : (N : ℝ) ≠ 0 := Nat.cast_ne_zero.2 hN.ne'
+  unfold welchBinPower
+  rw [← Finset.sum_mul, ← Finset.sum_div, Finset.sum_comm]
+  simp only [segSpec_energy hN hζ hc, ← Finset.mul_sum]
+  field_simp
+
+/-- `welch_parseval` (two-sided): `Σ_m P(m)·Fs/NFFT` is the mean over the segments of the energy
+of the windowed segment, over `Σ w²` -/
+theorem welch_parseval_twosided (hN : 0 < N) (hζ : IsPrimitiveRoot ζ N)
+    (hc : (starRingEnd ℂ) ζ = ζ⁻¹) {Fs : ℝ} (hFs : Fs ≠ 0) (n nov : ℕ) (win : ℕ → ℝ) (x : ℕ → ℂ) :
+    ∑ m ∈ range (outLen N false), (welchCsdAt (tw ζ) Fs n N nov false win x x m).re * (Fs / N)
+      = (∑ s ∈ range (welchSegs n N nov), segEnergy n N nov win x s)
+          / ((welchSegs n N nov : ℝ) * ∑ j ∈ range N, win j * win j) := by
+  have hL : outLen N false = N := by simp [outLen]
+  simp only [hL, welchAuto_eq, Complex.ofReal_re, dblIf, Bool.false_eq_true, false_and, if_false,
+    welchBin]
+  rw [sum_range_rot N ((N + 1) / 2)
+    (fun k => welchBinPower (tw ζ) Fs n N nov win x k * (Fs / N))]
+  exact welchBinPower_sum hN hζ hc hFs n nov win x
+
+/-- for a real signal (and real window) the per-bin Welch power is symmetric -/
+theorem welchBinPower_symm (hN : 0 < N) (hζ : IsPrimitiveRoot ζ N) (hc : (starRingEnd ℂ) ζ = ζ⁻¹)
+    (Fs : ℝ) (n nov : ℕ) (win : ℕ → ℝ) (x : ℕ → ℂ) (hx : ∀ j, (starRingEnd ℂ) (x j) = x j)
+    {k : ℕ} (hk : k ≤ N) :
+    welchBinPower (tw ζ) Fs n N nov win x (N - k) = welchBinPower (tw ζ) Fs n N nov win x k := by
+  have hp : ∀ s j, (starRingEnd ℂ) (kscale (win j) (padded n x (s * (N - nov) + j)))
+      = kscale (win j) (padded n x (s * (N - nov) + j)) := by
+    intro s j
+    rw [kscale_eq, map_mul, Complex.conj_ofReal, padded_eq]
+    split_ifs <;> simp [hx]
+  have hY : ∀ s, Complex.normSq (segSpec (tw ζ) N n nov win x s (N - k))
+      = Complex.normSq (segSpec (tw ζ) N n nov win x s k) := by
+    intro s
+    have := normSq_D_symm hN hζ hc _ (hp s) hk
+    simpa only [segSpec, dftAt_tw hζ.pow_eq_one] using this
+  unfold welchBinPower
+  simp only [hY]
+
+/-- `welch_parseval` (one-sided, real signal): same total, both parities of NFFT -/
+theorem welch_parseval_onesided (hN : 0 < N) (hζ : IsPrimitiveRoot ζ N)
+    (hc : (starRingEnd ℂ) ζ = ζ⁻¹) {Fs : ℝ} (hFs : Fs ≠ 0) (n nov : ℕ) (win : ℕ → ℝ) (x : ℕ → ℂ)
+    (hx : ∀ j, (starRingEnd ℂ) (x j) = x j) :
+    ∑ m ∈ range (outLen N true), (welchCsdAt (tw ζ) Fs n N nov true win x x m).re * (Fs / N)
+      = (∑ s ∈ range (welchSegs n N nov), segEnergy n N nov win x s)
+          / ((welchSegs n N nov : ℝ) * ∑ j ∈ range N, win j * win j) := by
+  have hL : outLen N true = N / 2 + 1 := by simp [outLen, Fn, periodogram_Fn]
+  rw [← welchBinPower_sum hN hζ hc hFs n nov win x, ← Finset.sum_mul, ← Finset.sum_mul, hL,
+    ← fold_sum_eq N hN _ (fun k _ hk => welchBinPower_symm hN hζ hc Fs n nov win x hx hk.le)]
+  congr 1
+  refine sum_congr rfl fun m _ => ?_
+  rw [welchAuto_eq, Complex.ofReal_re]
+  unfold dblIf foldOne welchBin
+  simp only [if_true, true_and, mtm_Fl]
+  by_cases h0 : m = 0
+  · simp [h0]
+  · by_cases h1 : m < (N + 1) / 2
+    · have : 1 ≤ m ∧ m < (N + 1) / 2 := ⟨by omega, h1⟩
+      simp only [if_neg h0, if_pos h1, if_pos this]
+    · have : ¬ (1 ≤ m ∧ m < (N + 1) / 2) := fun hh => h1 hh.2
+      simp only [if_neg h0, if_neg h1, if_neg this]
+
 /-! ### non-vacuity: admissible twiddles exist for every `N`, and the statements have content -/
 
 /-- a primitive `N`-th root of unity lies on the unit circle: `conj ζ = ζ⁻¹` -/
